@@ -171,8 +171,26 @@ pub fn check_approx(rep: &mut Rep, d: Duration) {
     if !rep.tick() {
         return;
     }
-    if let Err(e) = guard(|| d.approx()) {
-        rep.fail(&format!("approx/panic/{}", e.class()), None, || format!("{}.approx() panicked: {}", fmt_parts(d.to_parts()), e.msg));
+    match guard(|| d.approx()) {
+        Err(e) => rep.fail(&format!("approx/panic/{}", e.class()), None, || format!("{}.approx() panicked: {}", fmt_parts(d.to_parts()), e.msg)),
+        Ok(g) => {
+            // approx is `round` to the largest unit (day .. nanosecond) present in the decomposition of |d| (its rustdoc,
+            // and the mechanism the property is anchored in); judged within one century of zero, where `round` itself
+            // is free of known finding F1
+            let c = count_d(d);
+            if c.abs() < NPC {
+                let m = c.abs();
+                let u = [NS_D, NS_H, NS_MIN, NS_S, NS_MS, NS_US, 1].into_iter().find(|u| m >= *u).unwrap_or(1);
+                let w = model(c, u);
+                rep.class("approx/judged");
+                if 2 * (c - c.div_euclid(u) * u) == u {
+                    rep.class("approx/exact-tie");
+                }
+                if !w.rd.contains(&count_d(g)) {
+                    rep.fail("approx/value", None, || format!("{}.approx() = {} (count {}), want round to {} ns = {}", fmt_parts(d.to_parts()), fmt_parts(g.to_parts()), count_d(g), u, w.rd[0]));
+                }
+            }
+        }
     }
 }
 
@@ -259,6 +277,11 @@ pub fn run(cfg: &Cfg, rep: &mut Rep) {
         }
         if k % 16 == 0 {
             check_approx(rep, d);
+            // ties and near-ties of approx's own unit, both signs
+            let u = *r.pick(&[NS_D, NS_H, NS_MIN, NS_S, NS_MS, NS_US]);
+            let q = r.range_i64(0, 23) as i128;
+            let t = q * u + u / 2 + r.range_i64(-1, 1) as i128;
+            check_approx(rep, mk(if r.bool() { -t } else { t }));
         }
     }
 }
